@@ -78,7 +78,8 @@ PROPS = {
     'C06': dict(
         theorems=['C06_records_stay_safe', 'C06_genesis_safe', 'C06_payout_cannot_panic', 'C06_handlers_total', 'C06_oracle_handlers_total',
                   'C06_entry_parser_total', 'C06_entry_parser_is_model', 'C06_round_arithmetic_total', 'C06_step_never_panics'],
-        runs=[chain('adv', 'adversarial', 64, 2400, 'check_C06'),
+        runs=[func('arith', 'arith', 1000, 20000, 'arith_mismatches', 'arith_check', fields=[1, 2, 4]),
+              chain('adv', 'adversarial', 64, 2400, 'check_C06'),
               chain('periods', 'periods', 24, 800, 'check_C06'),
               chain('faults', 'faults', 24, 800, 'check_C06')],
         fields=[20, 21],
@@ -89,7 +90,7 @@ PROPS = {
     'C08': dict(
         theorems=['C08_round_arithmetic', 'C08_tally_once_per_round', 'C08_round_info_current', 'C08_prevote_iff', 'C08_prevote_effect',
                   'C08_vote_iff', 'C08_vote_effect', 'C08_no_tally_elsewhere', 'C08_nothing_left_behind', 'C08_replayed_vote_rejected'],
-        runs=[func('arith', 'arith', 2000, 40000, 'arith_mismatches', 'arith_check'),
+        runs=[func('arith', 'arith', 2000, 40000, 'arith_mismatches', 'arith_check', fields=[1, 2, 4]),
               chain('oracle', 'oracle', 56, 2000, 'check_C08'),
               chain('adv', 'adversarial', 24, 800, 'check_C08')],
         fields=[1, 2, 6, 7, 8, 9, 16, 20, 21],
@@ -111,9 +112,9 @@ PROPS = {
         rule=CHAIN_RULE + "; settlement fees feed the reward pool (oracle share 0.5), pro-bono rates 0, 0.3, 0.5, 0.333.., 1; every registered crisis invariant is evaluated on the real app after every block",
         assumptions=["x/distribution AllocateTokensToValidator credits exactly the DecCoins it is given; the SDK modules' own invariants are observed (crisis AssertInvariants after every block), not proved"]),
     'C15': dict(
-        theorems=['C15_close_iff', 'C15_every_window_closed', 'C15_first_tally', 'C15_nobody_else',
+        theorems=['C15_close_iff', 'C15_gate_as_coded', 'C15_every_window_closed', 'C15_first_tally', 'C15_nobody_else',
                   'C15_effect', 'C15_miss_only', 'C15_old_gate_never_closes'],
-        runs=[func('arith', 'arith', 2000, 40000, 'arith_mismatches', 'arith_check'),
+        runs=[func('arith', 'arith', 2000, 40000, 'arith_mismatches', 'arith_check', fields=[1, 2, 3, 4]),
               chain('oracle', 'oracle', 48, 1600, 'check_C15')],
         fields=[1, 6, 10, 11, 20, 21],
         rule="(p, W, maxmiss, h) tuples biased to window / round boundaries and 2^62..2^64 (non-trivial: accepted parameters at a closing height); " + CHAIN_RULE,
